@@ -739,7 +739,12 @@ func (s *httpServer) graphiteHandler(w http.ResponseWriter, req *http.Request, p
 	}
 
 	var rateStr string
-	rate := *response[0].DataPoints[0][0]
+	// tolerate an answer without a usable first data point (no series, no points, null value)
+	rate := -1.0
+	if len(response) > 0 && len(response[0].DataPoints) > 0 && len(response[0].DataPoints[0]) > 0 &&
+		response[0].DataPoints[0][0] != nil {
+		rate = *response[0].DataPoints[0][0]
+	}
 	if rate < 0 {
 		rateStr = "N/A"
 	} else {
